@@ -869,6 +869,15 @@ func (ctx Ctx) selectExpr(e *ast.SelectorExpr) coq.Expr {
 	// If it is, we need to translate to 'StructName__FuncName varName' instead
 	// of a struct access
 	_, isFuncType := (ctx.typeOf(e)).(*types.Signature)
+	if isFuncType && ok {
+		// a field of function type is an ordinary field (a struct cannot have
+		// a field and a method of the same name)
+		for i := 0; i < structInfo.structType.NumFields(); i++ {
+			if structInfo.structType.Field(i).Name() == e.Sel.Name {
+				isFuncType = false
+			}
+		}
+	}
 	if isFuncType {
 		m := coq.MethodName(structInfo.name, e.Sel.Name)
 		ctx.dep.addDep(m)
